@@ -36,6 +36,20 @@ class _Site:
 
 
 # ---------------------------------------------------------------------- extraction
+STRICT = [True]
+
+
+def broken(chk_note, msg):
+    """an uninterpretable table is analysis-broken in the claimed configurations; in the additional thorough
+    configurations it is recorded as 'no claim for this set'"""
+    if STRICT[0]:
+        raise AnalysisBroken(msg)
+    NOTES.append(msg)
+
+
+NOTES = []
+
+
 def extract_primes(prog):
     """{identifier name: {'p': int, 'kind': .., 'x': int|None, 'family': name|None}}"""
     fn = prog.get("fp_param_set")
@@ -89,9 +103,11 @@ def extract_primes(prog):
         try:
             I.run_case(bid)
         except Unsupported as e:
-            raise AnalysisBroken("PARAM: cannot interpret the prime %s in fp_param_set: %s" % (name, e))
+            broken(None, "PARAM: cannot interpret the prime %s in fp_param_set: %s" % (name, e))
+            continue
         if "p" not in res:
-            raise AnalysisBroken("PARAM: case %s of fp_param_set installs no prime" % name)
+            broken(None, "PARAM: case %s of fp_param_set installs no prime" % name)
+            continue
         out[name] = res
     return out
 
@@ -118,13 +134,14 @@ def extract_curves(prog, fname, field_setter):
         try:
             I.run_case(bid)
         except Unsupported as e:
-            raise AnalysisBroken("PARAM: cannot interpret the case %s of %s: %s" % (name, fname, e))
+            broken(None, "PARAM: cannot interpret the case %s of %s: %s" % (name, fname, e))
+            continue
         rec["env"] = I.env
         out[name] = rec
     return out, fn
 
 
-def switch_returns(prog, fname):
+def switch_returns(prog, fname, by_value=False):
     """{case name: returned constant} for `switch (X) { case A: case B: return K; ... }` functions"""
     fn = prog.get(fname)
     if fn is None:
@@ -141,6 +158,8 @@ def switch_returns(prog, fname):
             if not lab or lab[0] != "case":
                 continue
             name = lab[1][2] if len(lab[1]) > 2 else str(lab[1][1])
+            if by_value:
+                name = lab[1][1]
             # follow fall-through labels to the return
             cur = fn.blocks[s]
             for _ in range(80):
@@ -174,9 +193,15 @@ def check_prime_fields(prog, chk, primes):
 
 def check_prime_curves(prog, chk, primes):
     curves, fn = extract_curves(prog, "ep_param_set", "fp_param_set")
-    embed = switch_returns(prog, "ep_param_embed")
+    embed_fam = switch_returns(prog, "ep_curve_embed", by_value=True)     # pairing family (enum value) -> embedding degree
+    embed = {}
+    for nm, rec in curves.items():
+        pf = rec.get("env", {}).get("pairf")
+        if isinstance(pf, int) and pf in embed_fam:
+            embed[nm] = embed_fam[pf]
     level = switch_returns(prog, "ep_param_level")
     n = 0
+    groups = {}
     for name, rec in sorted(curves.items()):
         env = rec["env"]
         site = _Site(name if prog.library is None else fn.name, "src/ep/relic_ep_param.c" if prog.library is None else fn.rfile)
@@ -186,10 +211,12 @@ def check_prime_curves(prog, chk, primes):
             continue
         pr = primes.get(rec["field"])
         if pr is None:
-            raise AnalysisBroken("PARAM: curve %s selects the field %s, which fp_param_set does not build in this configuration" % (name, rec["field"]))
+            broken(None, "PARAM: curve %s selects the field %s, which fp_param_set does not build in this configuration" % (name, rec["field"]))
+            continue
         n += 1
         p = pr["p"]
         a, b, x, y, r, h = (env[k] for k in need)
+        groups.setdefault((embed.get(name), p.bit_length()), []).append((name, level.get(name), site))
         E = nt.Curve(p, a, b)
         G = (x % p, y % p)
         okc = lambda what, detail: chk.ok("PARAM-" + what.upper(), site, name, detail, file=site.rfile)
@@ -235,6 +262,16 @@ def check_prime_curves(prog, chk, primes):
                 bad("level", "ep_param_level advertises %d bits of security for %s but r has only %d bits" % (lv, name, r.bit_length()))
             elif lv:
                 okc("level", "advertised level %d with a %d-bit group order" % (lv, r.bit_length()))
+    # sibling agreement: parameter sets with the same embedding degree over fields of the same size advertise the same level
+    for (k, pb), items in sorted(groups.items(), key=repr):
+        lvls = set(lv for _, lv, _ in items if lv)
+        if k and k > 1 and len(items) > 1:
+            if len(lvls) > 1:
+                nm, lv, st = sorted(items)[-1]
+                chk.fail("PARAM-LEVEL", st, "k=%s,%dbit" % (k, pb), "parameter sets %s have the same embedding degree %s over %d-bit fields but advertise different security levels %s" % (
+                    ", ".join(i[0] for i in items), k, pb, sorted(lvls)), file=st.rfile)
+            else:
+                chk.ok("PARAM-LEVEL", items[0][2], "k=%s,%dbit" % (k, pb), "siblings %s agree on level %s" % (", ".join(i[0] for i in items), sorted(lvls)), file=items[0][2].rfile)
     return n
 
 
@@ -404,7 +441,14 @@ def run(ctx, chk):
             except AnalysisBroken as e:
                 chk.note("thorough: configuration %s could not be set up: %s" % (name, str(e)[:120]))
                 continue
-            analyse(ctx, p, chk)
+            STRICT[0] = False
+            try:
+                analyse(ctx, p, chk)
+            finally:
+                STRICT[0] = True
+            ctx._prog.pop(name, None)       # keep memory flat across 28 configurations
+        for m in NOTES:
+            chk.note("no claim (thorough configuration): " + m[:200])
 
 
 THOROUGH_PRIMES = [158, 160, 192, 221, 224, 226, 251, 254, 315, 317, 330, 354, 377, 382, 383, 384, 446, 448, 455, 477, 508, 509, 511, 521, 544, 569, 575, 638]
